@@ -346,6 +346,10 @@ class _Frame:
                 d = d.value
             if isinstance(e, ast.Name) and isinstance(d, ast.Constant):
                 return Const(d.value)       # a kept local that is bound to a literal
+            if isinstance(e, ast.Name) and isinstance(d, (ast.List, ast.Tuple)) and not d.elts:
+                return Const([] if isinstance(d, ast.List) else ())
+            if isinstance(e, ast.Name) and isinstance(d, ast.Dict) and not d.keys:
+                return Kind('dict', empty=True, truthy=False)
             if isinstance(d, ast.Call) and nn(d, self.fi, self.ctx):
                 return Kind('other', truthy=True)
             return None
